@@ -167,6 +167,7 @@ struct Run<'u> {
     install: Option<(u64, u32, u64)>,
     sent: BTreeMap<i64, (String, Vec<u8>)>,
     cancelled: BTreeSet<i64>,
+    last_until_ms: Option<i64>,
 }
 
 impl<'u> Run<'u> {
@@ -231,7 +232,11 @@ impl<'u> Run<'u> {
         let r = catch_unwind(AssertUnwindSafe(|| self.agent.poll(at)));
         match r {
             Err(e) => json!({"k": "panic", "msg": panic_msg(e)}),
-            Ok(StunAgentPollRet::WaitUntil(w)) => json!({"k": "wait", "until_ms": self.rel_ms(w)}),
+            Ok(StunAgentPollRet::WaitUntil(w)) => {
+                let u = self.rel_ms(w);
+                self.last_until_ms = Some(u);
+                json!({"k": "wait", "until_ms": u})
+            }
             Ok(StunAgentPollRet::SendData(tx)) => self.transmit_json(&own(tx), None, None),
             Ok(StunAgentPollRet::TransactionTimedOut(id)) => json!({"k": "timeout", "tid": self.u.tid_index(id)}),
             Ok(StunAgentPollRet::TransactionCancelled(id)) => json!({"k": "cancelled", "tid": self.u.tid_index(id)}),
@@ -243,6 +248,18 @@ impl<'u> Run<'u> {
         let ret: Value = match a {
             "tick" => {
                 self.clock += s["d"].as_u64().unwrap();
+                json!({"k": "ok"})
+            }
+            "tick_wake" => {
+                // advance the clock relative to the last WaitUntil the agent returned (early / exact / late polls)
+                let d = s["d"].as_u64().unwrap_or(1);
+                let target = self.last_until_ms.map(|u| u + s["delta"].as_i64().unwrap_or(0));
+                match target {
+                    Some(t) if t > (self.clock * self.scale) as i64 => {
+                        self.clock = (t as u64 + self.scale - 1) / self.scale;
+                    }
+                    _ => self.clock += d,
+                }
                 json!({"k": "ok"})
             }
             "send" => {
@@ -485,6 +502,7 @@ pub fn run_script(script: &Value) -> Vec<Value> {
         install,
         sent: BTreeMap::new(),
         cancelled: BTreeSet::new(),
+        last_until_ms: None,
     };
     let _ = run.transport;
     let mut events = vec![];
